@@ -25,6 +25,54 @@ CLAIMED = {
               "volume terms) and the Lean reference semantics locates sample points in the written file. Not proved: "
               "denotation preservation of remove_empty/unused_volumes (stated as a def)."),
         design_ref='§8 C01'),
+    'C06': dict(
+        technique='Lean 4 proof (induction over the index ranges; field identities for the dual basis) + model↔code correspondence + Lean point monitor on lattice decks',
+        text=("Proved in Lean for any number of ranges of any (also negative or one-element) extent: LatticeBounds.indices "
+              "enumerates exactly the declared index box with the first index varying fastest (indices_first_index_fastest, "
+              "mem_indexBox) and LatticeSpec.items pairs the i-th array entry with the i-th index (items_zip); over any "
+              "field, latticeReciprocal returns the dual basis in 1, 2 and 3 dimensions (rᵢ·vⱼ = δᵢⱼ) and, for one pair "
+              "of planes, the base vector of squareLatticeBaseVectors carries the second plane onto the first whichever "
+              "side the first-listed surface has. On every run the Lean reference semantics (locate: element index, "
+              "filling universe, provenance) is evaluated at sample points of rectangular/skew lattice decks — finite "
+              "and infinite lattices, FILL arrays with self-fill and 0 entries, nested lattices, --lattice — against the "
+              "written file. Not proved: the 2- and 3-pair composition of squareLatticeBaseVectors (a corollary of "
+              "reciprocal_2d/3d, checked by the monitor) and the clipping of elements by the container."),
+        design_ref='§8 C06'),
+    'C09': dict(
+        technique='Lean 4 proof (char-level model of normalize_float) + model↔code correspondence on generated spellings + respelling oracle',
+        text=("Proved in Lean on the char-level model of normalize_float: any number of trailing zeros after the decimal "
+              "point is immaterial to the key (trailing_zeros_immaterial), the exponent markers e/E/d/D and the "
+              "marker-less Fortran form are normalised to one spelling (markers_normalised); the model is compared with "
+              "the code on every generated spelling (normfloat stream) and the converter's output on respelt decks "
+              "(LIKE BUT, TR cards, surface parameters) must not change. Not proved: value preservation stated over the "
+              "exact rational value."),
+        design_ref='§8 C09'),
+    'C10': dict(
+        technique='Lean 4 proof (field identities for rescale_fractions, decision logic of the material card reader) + Lean composition monitor on the written file',
+        text=("Proved in Lean over any field: the concentrations written for a material are proportional to the card's "
+              "fractions and sum to the cell density (concentrations_sum, concentrations_proportional); the reference "
+              "reading of a material card keeps nuclides in card order, flags atom vs mass by the sign, names natural "
+              "elements and isotopes per the ZAID (nuclides_in_card_order, atom_flag_iff_positive, natural_element, "
+              "isotope_name). The Lean monitor recomputes every expected composition from the deck and compares it with "
+              "the COMPOSITION block of the written file (names, counts, concentrations to 1e-9 relative)."),
+        design_ref='§8 C10'),
+    'C12': dict(
+        technique='Lean 4 proof (structural induction over the token list of expand_data_card) + model↔code correspondence',
+        text=("Proved in Lean for token lists of any length: a card without shorthand is returned unchanged, nR repeats "
+              "the previous entry n times, nM multiplies it, nI inserts n equally spaced values ending exactly at the "
+              "next entry (linspace_length/last), nJ leaves n defaults; the maximum over two importance cards "
+              "(two_cards_maximum). The model of expand_data_card and of the importance-card merge is compared with the "
+              "code on generated and malformed token lists (values and error class)."),
+        design_ref='§8 C12'),
+    'C16': dict(
+        technique='Lean 4 proof (decision logic of the boundary-condition writer on the model) + model↔code correspondence + locus check of the designated surface in the written file',
+        text=("Proved in Lean on the model of the boundary-condition collection: exactly one entry per flagged surface, "
+              "in order, with the kind of its flag, none for unflagged ones (entries_partial, one_entry_per_flagged); a "
+              "flag on a macrobody is rejected (macrobody_flag_rejected). The model is compared with the code on every "
+              "generated deck, and the surface designated in the written BOUNDARY_CONDITION block is checked to have the "
+              "same locus as the flagged MCNP surface (after de-duplication, transformation, one-sheet cones). Open "
+              "findings F2a/F2b/F22 are listed in known_findings.json."),
+        design_ref='§8 C16'),
     'C08': dict(
         technique='Lean 4 proof (loop invariant of remove_empty_volumes, optimise invariant) + Lean reader evaluating WellFormed on the written bytes',
         text=("Proved in Lean: pot_optimise never leaves an intersection with one surface on both sides; after "
